@@ -110,7 +110,7 @@ pub fn action_tree<T: std::fmt::Debug>(a: &Action<'_, T>) -> Value {
         Action::Trans => json!({"t":"trans"}),
         Action::MultipleActions(acs) => json!({"t":"multi","acs":acs.iter().map(action_tree).collect::<Vec<_>>()}),
         Action::HoldTap(ht) => json!({"t":"holdtap","timeout":ht.timeout,"thi":ht.tap_hold_interval,
-            "tap":action_tree(&ht.tap),"hold":action_tree(&ht.hold),
+            "tap":action_tree(&ht.tap),"hold":action_tree(&ht.hold),"toa":action_tree(&ht.timeout_action),
             "cfg": match ht.config {
                 kanata_keyberon::action::HoldTapConfig::Default => "default",
                 kanata_keyberon::action::HoldTapConfig::HoldOnOtherKeyPress => "press",
